@@ -32,7 +32,7 @@ def write_mc(workdir, name, part, dims=(1, 2, 3), maxrank=1, instances=()):
         f.write("---- MODULE %s ----\nEXTENDS Fantasy\nDimsDef == {%s}\nInstDef == {%s}\n====\n" % (
             mod, ", ".join(map(str, dims)), ",\n  ".join(tla(i) for i in instances)))
     cfg = os.path.join(workdir, mod + ".cfg")
-    inv = {"shapes": ["ShapesOK"], "update": ["UpdateOK"], "machine": ["DataIsConcatenation"]}[part]
+    inv = {"shapes": ["ShapesOK"], "update": ["UpdateOK"], "machine": ["DataIsConcatenation"], "list": ["ListOK"]}[part]
     tlc.write_cfg(cfg, spec="Spec", constants={"Part": part, "Dims": "<- DimsDef", "MaxRank": maxrank, "Instances": "<- InstDef"},
                   invariants=inv, properties=["SourceUntouched"] if part == "machine" else [])
     return os.path.join(workdir, mod + ".tla"), cfg
@@ -124,7 +124,10 @@ def _worker(item):
     cfgs = item["cfgs"]
     out = []
     for c in cfgs:
-        out.append(run_config(torch, gpytorch, settings, _verif, c))
+        if c.get("kind") == "modellist":
+            out.append(run_list_config(torch, gpytorch, settings, c))
+        else:
+            out.append(run_config(torch, gpytorch, settings, _verif, c))
     return out
 
 
@@ -171,7 +174,9 @@ def run_config(torch, gpytorch, settings, _verif, c):
         xf = torch.rand(*IB, m, d, generator=g, dtype=torch.float64) * 2 - 1
         yf = torch.randn(*TB, m, *tshape, generator=g, dtype=torch.float64) * 0.5
         # fixed noise belongs to the inputs: shared fantasy inputs carry shared noise
-        nf = (0.05 + 0.1 * torch.rand(*IB, m, generator=g, dtype=torch.float64)) if noise is not None else None
+        # (the fantasy noise is concatenated with the stored noise: it carries at least the model's batch shape)
+        NB = IB if len(IB) >= len(MB) else MB
+        nf = (0.05 + 0.1 * torch.rand(*NB, m, generator=g, dtype=torch.float64)) if noise is not None else None
         before = snapshot(torch, cur)
         before_pred = predict(cur, xs) if k == 0 else None
         kw = {"noise": nf} if nf is not None else {}
@@ -264,12 +269,112 @@ def run_config(torch, gpytorch, settings, _verif, c):
     return res
 
 
+def run_list_config(torch, gpytorch, settings, c):
+    """IndependentModelList.get_fantasy_model: every member's fantasy = that member conditioned on its own concatenated data
+    (with its own noise entry); the source list is untouched."""
+    from contextlib import ExitStack
+    members, entries = c["members"], c["noise"]
+    n, m, d, ms = 5, 2, 1, 3
+    g = torch.Generator().manual_seed(c["seed"])
+    desc = "IndependentModelList(%s).get_fantasy_model(noise=%s) fast_pred_var=%s detach=%s depth=%d" % (
+        ", ".join(members), "-" if entries == ["-", "-"] else "[%s]" % ", ".join("v%d" % k if e == "v" else "None" for k, e in enumerate(entries)),
+        c["fpv"], c["detach"], c["depth"])
+    cell = "C04/modellist/%s/noise-%s" % ("+".join(members), "".join(entries))
+    res = dict(key=["modellist", members, entries, c["fpv"], c["detach"], c["depth"]], ok=True, nontrivial=True, sample=dict(config=desc))
+
+    def fail(sym, detail):
+        res.update(ok=False, sig=cell + "/" + sym, detail=desc + ": " + detail, case=c)
+        return res
+
+    def predict(mdl, inps):
+        with ExitStack() as st:
+            st.enter_context(settings.fast_pred_var(c["fpv"]))
+            st.enter_context(settings.detach_test_caches(c["detach"]))
+            outs = mdl(*inps)
+            return [(o.mean.detach().clone(), o.covariance_matrix.detach().clone()) for o in outs]
+
+    data, models = [], []
+    for k, kind in enumerate(members):
+        x = torch.rand(n, d, generator=g, dtype=torch.float64) * 2 - 1
+        y = torch.sin(3 * x.sum(-1) + k) + 0.1 * torch.randn(n, generator=g, dtype=torch.float64)
+        noise = (0.05 + 0.1 * torch.rand(n, generator=g, dtype=torch.float64)) if kind.startswith("fixed") else None
+        mdl, lik = make_model(torch, gpytorch, "exact", kind, x, y, noise, d, True)
+        with torch.no_grad():       # distinct hyperparameters per member
+            mdl.covar_module.base_kernel.lengthscale = 0.5 + 0.3 * k
+            if kind == "homo":
+                lik.noise = 0.1 + 0.1 * k
+        data.append([x, y, noise])
+        models.append(mdl)
+    ml = gpytorch.models.IndependentModelList(*models)
+    ml.eval()
+    xs = [torch.rand(ms, d, generator=g, dtype=torch.float64) * 2 - 1 for _ in members]
+    ok, r0 = core.guarded(lambda: predict(ml, xs))
+    if not ok:
+        return fail("source-predict-raises", r0)
+    cur = ml
+    for step in range(c["depth"]):
+        xf = [torch.rand(m, d, generator=g, dtype=torch.float64) * 2 - 1 for _ in members]
+        yf = [torch.randn(m, generator=g, dtype=torch.float64) * 0.5 for _ in members]
+        nf = [(0.3 + 0.4 * torch.rand(m, generator=g, dtype=torch.float64)) if e == "v" else None for e in entries]
+        kw = {} if entries == ["-", "-"] else {"noise": nf}
+        before = [snapshot(torch, mm) for mm in cur.models]
+        before_pred = predict(cur, xs)
+        with ExitStack() as st:
+            st.enter_context(settings.fast_pred_var(c["fpv"]))
+            st.enter_context(settings.detach_test_caches(c["detach"]))
+            ok, fm = core.guarded(lambda: cur.get_fantasy_model(xf, yf, **kw))
+        if not ok:
+            return fail("raises", "get_fantasy_model raised %s" % fm)
+        for k, mm in enumerate(cur.models):
+            why = same_snapshot(torch, before[k], snapshot(torch, mm))
+            if why:
+                return fail("source-changed", "member %d: %s" % (k, "; ".join(why)))
+        after_pred = predict(cur, xs)
+        for k in range(len(members)):
+            for a, b in zip(after_pred[k], before_pred[k]):
+                gk, wk = core.close(a, b, 1e-10, 1e-12)
+                if not gk:
+                    return fail("source-predictions-changed", "member %d: %s" % (k, wk))
+        if not isinstance(fm, gpytorch.models.IndependentModelList) or len(fm.models) != len(members):
+            return fail("result-type", "result is %s" % type(fm).__name__)
+        ok, fp = core.guarded(lambda: predict(fm, xs))
+        if not ok:
+            return fail("fantasy-predict-raises", fp)
+        for k, kind in enumerate(members):
+            x, y, noise = data[k]
+            x = torch.cat([x, xf[k]], dim=-2)
+            y = torch.cat([y, yf[k]], dim=-1)
+            if noise is not None:
+                noise = torch.cat([noise, nf[k]], dim=-1)
+            data[k] = [x, y, noise]
+            fmk = fm.models[k]
+            if tuple(fmk.train_inputs[0].shape) != tuple(x.shape) or not torch.equal(fmk.train_inputs[0], x) or not torch.equal(fmk.train_targets, y):
+                return fail("data", "member %d of the fantasy list does not hold the concatenation of its own data and its own fantasies" % k)
+            fresh, flik = make_model(torch, gpytorch, "exact", kind, x, y, noise, d, True)
+            sd = {k2: v.clone() for k2, v in models[k].state_dict().items() if not (kind.startswith("fixed") and k2.endswith("noise_covar.noise"))}
+            fresh.load_state_dict(sd, strict=False)
+            with ExitStack() as st:
+                st.enter_context(settings.fast_pred_var(c["fpv"]))
+                st.enter_context(settings.detach_test_caches(c["detach"]))
+                o = fresh(xs[k])
+                rp = (o.mean.detach().clone(), o.covariance_matrix.detach().clone())
+            g1, w1 = core.close(fp[k][0], rp[0], 1e-7, 1e-9)
+            if not g1:
+                return fail("mean", "member %d (%s): fantasy mean differs from conditioning on its concatenated data: %s" % (k, kind, w1))
+            g2, w2 = core.close(fp[k][1], rp[1], 1e-7, 1e-9)
+            if not g2:
+                return fail("covariance", "member %d (%s): fantasy covariance differs from conditioning on its concatenated data: %s" % (k, kind, w2))
+        cur = fm
+    return res
+
+
 def run(ck):
     thorough = ck.tier == "thorough"
     core.setup_torch()
     rnd = random.Random(ck.seed)
     ck.rule = ("configurations = every documented (model batch, input batch, target batch) triple from Fantasy.tla x likelihood x strategy x "
-               "fast_pred_var x detach_test_caches x re-fantasizing depth; each compared with a fresh ExactGP on the concatenated data, the carried "
+               "fast_pred_var x detach_test_caches x re-fantasizing depth, plus IndependentModelList fantasies (member likelihood kinds x noise-list entries "
+               "incl. None); each compared with a fresh ExactGP on the concatenated data, the carried "
                "solves with recomputation, the source with its snapshot; non-trivial = all (every configuration conditions on new data)")
     ck.assumptions = ["supported batch patterns are those of the get_fantasy_model docstring: inputs/targets b1..bk x m or f x b1..bk x m, inputs not longer than targets",
                       "float64, 5 training + 2 fantasy points per step, noise >= 0.05"]
@@ -282,8 +387,10 @@ def run(ck):
     jobs.append(((mod, cfg), dict(name=PID + "/update", check=False, workers=8, timeout=1500)))
     mod, cfg = write_mc(wd, "machine", "machine")
     jobs.append(((mod, cfg), dict(name=PID + "/machine", check=False, workers=2)))
-    rs = tlc.run_many(jobs, parallel=3)
-    for lab, r in zip(("shapes", "update (rational bordered system)", "machine"), rs):
+    mod, cfg = write_mc(wd, "list", "list")
+    jobs.append(((mod, cfg), dict(name=PID + "/list", dump=True, check=False, workers=2)))
+    rs = tlc.run_many(jobs, parallel=4)
+    for lab, r in zip(("shapes", "update (rational bordered system)", "machine", "list (per-member routing)"), rs):
         ck.add_tlc(r, "Fantasy " + lab)
         if r.violation:
             ck.model_drift("Fantasy.tla part %s violates %s: %s" % (lab, r.violation["name"], str(r.violation["trace"][:1])[:300]))
@@ -313,6 +420,14 @@ def run(ck):
             for grad in (True, False):
                 cfgs.append(dict(kind="kiss", lik="homo", MB=list(MB), IB=list(IB), TB=list(TB), meaning=list(meaning), fpv=False, detach=True,
                                  depth=1, grad=grad, seed=ck.seed * 1000 + len(cfgs)))
+    lists = [dict(members=[str(x) for x in st["c"]["members"]], noise=[str(x) for x in st["c"]["noise"]]) for st in rs[3].states()]
+    if not lists:
+        ck.vacuous("no model-list cases generated")
+    for q in sorted(lists, key=repr):
+        for fpv, detach in itertools.product((False, True), (True, False)):
+            for depth in ((1, 2) if thorough or fpv else (1,)):
+                cfgs.append(dict(kind="modellist", members=q["members"], noise=q["noise"], fpv=fpv, detach=detach, depth=depth, seed=ck.seed * 1000 + len(cfgs)))
+    ck.section("modellist", cases=len(lists))
     items = [dict(cfgs=cfgs[i:i + 6]) for i in range(0, len(cfgs), 6)]
     results = core.pmap(_worker, items, chunksize=1)
     ck.absorb(results)
@@ -323,7 +438,10 @@ def replay(rep):
     torch = core.setup_torch()
     import gpytorch
     from gpytorch import settings
-    r = run_config(torch, gpytorch, settings, None, rep["case"])
+    if rep["case"].get("kind") == "modellist":
+        r = run_list_config(torch, gpytorch, settings, rep["case"])
+    else:
+        r = run_config(torch, gpytorch, settings, None, rep["case"])
     if not r["ok"]:
         print("VIOLATION property=C04 replay=- :: %s :: %s" % (r["sig"], r["detail"]))
         return 1
